@@ -112,6 +112,7 @@ func runGroup(t *testing.T, steps []grpStep) ([]Ev, bool, string) {
 			}
 		}
 		swStarted := false
+		swCalls := 0
 		for _, st := range steps {
 			switch st.A {
 			case "reg":
@@ -152,8 +153,9 @@ func runGroup(t *testing.T, steps []grpStep) ([]Ev, bool, string) {
 			case "cancelparent":
 				r.emit(Ev{"ev": "stop"})
 				cancelParent()
-			case "stopwait":
-				if !swStarted {
+			case "stopwait": // at most two calls; the second one may run while the first is still waiting
+				if swCalls < 2 {
+					swCalls++
 					swStarted = true
 					r.Go("StopAndWait", Ev{}, func() Ev { g.StopAndWait(); return Ev{"k": "nil"} })
 				}
